@@ -11,11 +11,12 @@ CONSTANTS
   AttachGuard = TRUE
   SaveGuard = TRUE
   ObjSeq <- Seq2a
+  HandMode = FALSE
   Bias = TRUE
   Quiet = FALSE
 INIT Init
 NEXT Next
 VIEW view
 ACTION_CONSTRAINT EmitLoopEdge
-INVARIANTS RefinesDecl RefCountExact OwnerIffSingle NoDangling ReachableUnlessCyclic NoPanic
+INVARIANTS RefinesDecl RefCountExact OwnerIffSingle NoDangling IdCounter ReachableUnlessCyclic NoPanic
 CHECK_DEADLOCK FALSE
